@@ -383,3 +383,12 @@ var _ = sys.ExitCodeContextCanceled
 //@   requires m.s != nil && regInv(m.s) && ctx != nil
 //@   ensures[closes-when-done] old(ctxDone(ctx)) ==> closedWord(m) != 0
 //@   ensures[exit-code-of-cause] old(ctxDone(ctx)) && old(closedWord(m)) == 0 ==> exitCodeOf(m) == sys.ExitCodeContextCanceled || exitCodeOf(m) == sys.ExitCodeDeadlineExceeded
+
+// ---- C03: validation of constant expressions (the part of Module.Validate the engines rely on when
+// they evaluate initialisers without checks).
+//@ prop C03
+//@ func validateConstExpression(globals []GlobalType, numFuncs uint32, expr *ConstantExpression, expectedType ValueType) (err error)
+//@   requires expr != nil
+//@   ensures[only-constant-opcodes] err == nil ==> expr.Opcode == OpcodeI32Const || expr.Opcode == OpcodeI64Const || expr.Opcode == OpcodeF32Const || expr.Opcode == OpcodeF64Const || expr.Opcode == OpcodeGlobalGet || expr.Opcode == OpcodeRefNull || expr.Opcode == OpcodeRefFunc || expr.Opcode == OpcodeVecV128Const
+//@   ensures[global-get-only-immutable] err == nil && expr.Opcode == OpcodeGlobalGet ==> exists k int :: 0 <= k && k < len(globals) && !globals[k].Mutable && globals[k].ValType == expectedType
+//@   modifies nothing
